@@ -112,6 +112,12 @@ def text(obj):
                                     sqs(d["extended"]["fixed_kmers"]), ints(d["extended"]["changing_indices"]))
         return "Kmers %d %s %s %s %s" % (obj.k, str(bool(obj.include_reverse_complement)).lower(), loctok(obj.location),
                                          loctok(obj.reference), data)
+    if n == "HarmonizeRCA":
+        if not hasattr(obj, "original_codons"):
+            return None
+        sm = [fbits(x) for x in obj.smallest_possible_discrepancies]
+        return "RCA %s %s %s %s %s" % (kv(obj.codon_usage_table["RCA"]), kv(obj.original_codon_usage_table["RCA"]),
+                                       ",".join(obj.original_codons) or "-", ",".join(sm) or "-", loctok(obj.location))
     if n == "AvoidHairpins":
         return "Hairpins %d %d %s" % (obj.stem_size, obj.hairpin_window, loctok(obj.location))
     return None
@@ -187,6 +193,11 @@ def rand_spec_desc(rng, seq, kinds=None):
         if n < 3:
             return dict(kind="length", min_length=0, max_length=None)
         return dict(kind="cai", location=problems.rand_loc(rng, n, codon=True), table_seed=rng.randint(0, 10 ** 6), boost=1)
+    if k == "rca":
+        if n < 3:
+            return dict(kind="length", min_length=0, max_length=None)
+        return dict(kind="rca", location=problems.rand_loc(rng, n, codon=True), table_seed=rng.randint(0, 10 ** 6),
+                    orig_table_seed=rng.randint(0, 10 ** 6), boost=1)
     d = problems.rand_soft(rng, seq, allow=[k])
     return d
 
@@ -204,7 +215,7 @@ def build(desc):
     return problems.build_spec(desc)
 
 
-ROLE = {"change_obj": "objective", "cai": "objective", "keep_obj": "objective", "gc_obj": "objective"}
+ROLE = {"change_obj": "objective", "cai": "objective", "rca": "objective", "keep_obj": "objective", "gc_obj": "objective"}
 
 
 def init_spec(desc, seq):
